@@ -305,7 +305,17 @@ func nestSets() []*Set {
 	h.add(field("e", 1, kindSpec{t: tMessage, name: "." + pkg + ".Empty"}))
 	h.add(repeated(field("es", 2, kindSpec{t: tMessage, name: "." + pkg + ".Empty"})))
 	h.addMap("em", 3, tBool, kindSpec{t: tMessage, name: "." + pkg + ".Empty"})
+	ho := h.oneof("which")
+	h.add(inOneof(field("oe", 4, kindSpec{t: tMessage, name: "." + pkg + ".Empty"}), ho))
+	h.add(inOneof(field("oe2", 5, kindSpec{t: tMessage, name: "." + pkg + ".Empty"}), ho))
+	h.add(inOneof(field("os", 6, kindSpec{t: tString}), ho))
 	f.msg(h)
+	// a message whose only content is a oneof
+	oo := newMsg("."+pkg, "OnlyOneof")
+	ooi := oo.oneof("sum")
+	oo.add(inOneof(field("left", 1, kindSpec{t: tMessage, name: "." + pkg + ".OnlyOneof"}), ooi))
+	oo.add(inOneof(field("right", 2, kindSpec{t: tBytes}), ooi))
+	f.msg(oo)
 	return []*Set{simpleSet("nest", f)}
 }
 
